@@ -16,6 +16,12 @@
  *    preserved by the exact write frames (conditional __CPROVER_object_upto slices).
  * Because g_pos, g_hlen, g_lbyte are arbitrary, the clauses hold for every position. */
 #include "rt_common.h"
+/* errno after a failed write(2) is ARBITRARY (EINTR, EIO, ENOSPC, ...): the unit reads it as the ghost
+ * verif_errno, a static that DFCC havocs before the checked function and that the write model never
+ * sets -- so code that inspects errno to decide what to do with a failed write sees every value */
+#undef errno
+int verif_errno;
+#define errno verif_errno
 #include "ovni.c"
 
 unsigned char g_lbyte;      /* the byte L holds at g_pos, for the first g_hlen bytes */
